@@ -46,7 +46,8 @@ var textOps = []string{"Parse", "SetString", "Scan", "Sscanf", "UnmarshalText", 
 var gobOps = []string{"GobCopy", "GobDecode"}
 var ctxHistOps = []string{"c.Add", "c.Sub", "c.Mul", "c.Quo", "c.FMA", "c.Sqrt", "c.Neg", "c.Abs", "c.Set", "c.Err"}
 var getterOps = []string{"Cmp", "Sign", "IsInt", "MinPrec", "Attrs", "Int", "Int64", "Uint64", "Rat", "Float", "Float32", "Float64",
-	"Text", "Append", "Format", "String", "GobEncode", "MarshalText", "MarshalJSON"}
+	"Text", "Append", "Format", "String", "GobEncode", "MarshalText", "MarshalJSON",
+	"IntTo", "IntTo", "RatTo", "RatTo", "FloatTo"}
 
 func genHist(prop string, seed uint64, tier string) *Scenario {
 	r := newRng(seed, 0x48495354)
